@@ -3,6 +3,7 @@ from __future__ import annotations
 
 import ast
 import copy
+import re
 from typing import Dict, List, Optional, Set, Tuple
 
 from .core import AnalysisError, Report
@@ -450,8 +451,8 @@ def rule_preamble_pairing(ctx, rep: Report, rid="T1"):
             f"clean-up entry leaks at unload; a clean-up entry without collector does not compile", f"{ci.mod.rel}:{loop.lineno}")
     if tc and do:
         t1, t2 = fo.fold(tc[0].value), fo.fold(do[0].value)
-        k1 = {s.key: unparse(s.expr) for s in t1.slots()} if t1 else {}
-        k2 = {s.key: unparse(s.expr) for s in t2.slots()} if t2 else {}
+        k1 = {s.key: unparse(s.val) for s in t1.slots()} if t1 else {}
+        k2 = {s.key: unparse(s.val) for s in t2.slots()} if t2 else {}
         rep.add(rid, "preamble:both fragments are named after the same class", k1.get("class_name") is not None
                 and k1.get("class_name") == k2.get("class_name"), f"{k1} vs {k2}", f"{ci.mod.rel}:{loop.lineno}")
     # RTTI
@@ -617,7 +618,7 @@ def rule_classdef_complete(ctx, rep: Report, rid="T4"):
         if isinstance(st, ast.AugAssign) and "classdef" in unparse(st.value):
             t = fo.fold(st.value)
             if t is not None and t.slot("parent") is not None:
-                pe = unparse(t.slot("parent").expr)
+                pe = unparse(t.slot("parent").val)
                 ok = f"self._qualified_name({ip}.parent_class)" in pe and " ".join(t.literal("@").split()) == "classdef @ < @"
     qn = prog.method("MatlabWrapper", "_qualified_name")
     rep.add(rid, "classdef:names the declared base, or handle when there is none",
@@ -1208,8 +1209,8 @@ def rule_receiver_offset(ctx, rep: Report, rid="M3"):
                 if t is not None and t.slot("min1") is not None and t.slot("num_args") is not None and t.slot("body_args") is not None:
                     tpl = t
         if tpl is not None:
-            min1 = canon(unparse(tpl.slot("min1").expr)).replace(" ", "")
-            na = canon(unparse(tpl.slot("num_args").expr)).replace(" ", "")
+            min1 = canon(unparse(tpl.slot("min1").val)).replace(" ", "")
+            na = canon(unparse(tpl.slot("num_args").val)).replace(" ", "")
             so = [st for st in ast.walk(gc) if isinstance(st, ast.Assign) and "unwrap_shared_ptr" in unparse(st.value) and "in[0]" in unparse(st.value)
                   and role_of(st) == "method/static"]
             so_guard = canon([g for g, pol in guards_of(so[0], gc, include_exits=False) if pol][-1]) if so else None
@@ -1232,10 +1233,30 @@ def rule_receiver_offset(ctx, rep: Report, rid="M3"):
     # property
     ua = [c for c in ast.walk(gc) if isinstance(c, ast.Call) and unparse(c.func) == "self._unwrap_argument" and role_of(c) == "property"]
     kw = {k.arg: unparse(k.value) for k in ua[0].keywords} if ua else {}
-    nums = sorted(unparse(k.value) for c in ast.walk(gc) if isinstance(c, ast.Call) and isinstance(c.func, ast.Attribute) and c.func.attr == "format"
-                  and role_of(c) == "property" for k in c.keywords if k.arg == "num_args")
-    mins = sorted({unparse(k.value) for c in ast.walk(gc) if isinstance(c, ast.Call) and isinstance(c.func, ast.Attribute) and c.func.attr == "format"
-                   and role_of(c) == "property" for k in c.keywords if k.arg == "min1"})
+    # the count check of the property routines, read off the emitted text `checkArguments("<name>",nargout,nargin<adj>,<count>);`
+    # (format call or f-string alike; a constant field is part of the text)
+    fo_p = Folder(prog, ci.mod, gc, ci)
+    nums, mins = [], set()
+    for site in ast.walk(gc):
+        if not (isinstance(site, ast.JoinedStr) or (isinstance(site, ast.Call) and isinstance(site.func, ast.Attribute) and site.func.attr == "format")):
+            continue
+        if role_of(site) != "property":
+            continue
+        try:
+            tp = fo_p.fold(site)
+        except AnalysisError:
+            tp = None
+        if tp is None:
+            continue
+        text = "".join(q if isinstance(q, str) else "\u27e6" + (repr(q.val.value) if isinstance(q.val, ast.Constant) else "?") + "\u27e7" for q in tp.flat().parts)
+        for m_ in re.finditer(r'checkArguments\("[^"]*",nargout,nargin(?:\u27e6([^\u27e7]*)\u27e7|([-+]\d+))?,(?:\u27e6([^\u27e7]*)\u27e7|(\d+))\)', text):
+            adj = m_.group(1) if m_.group(1) is not None else (repr(m_.group(2)) if m_.group(2) is not None else "''")
+            cnt = m_.group(3) if m_.group(3) is not None else m_.group(4)
+            key = (site.lineno, m_.start())
+            nums.append(cnt)
+            mins.add(adj)
+    nums = sorted(nums)
+    mins = sorted(mins)
     rep.add(rid, "property routines:value read from in[1]; getter expects 0, setter 1 argument besides the receiver",
             kw.get("arg_id") == "1" and nums == ["0", "1"] and mins == ["'-1'"], f"value index {kw.get('arg_id')}, expected counts {nums}, nargin adjustment {mins}", loc)
     # .m side: is `this` passed?
@@ -1266,7 +1287,7 @@ def rule_receiver_offset(ctx, rep: Report, rid="M3"):
             t = fo.fold(c)
             if t is not None and t.slot("var_arg") is not None:
                 lit = t.literal("@")
-                hit = "@@(@@@);" in lit.replace(" ", "") and unparse(t.slot("var_arg").expr).startswith("self._wrap_list_variable_arguments(")
+                hit = "@@(@@@);" in lit.replace(" ", "") and unparse(t.slot("var_arg").val).startswith("self._wrap_list_variable_arguments(")
     rep.add(rid, "constructor .m call passes the id then varargin{1..n}", hit, "", f"{ci.mod.rel}:{fn.lineno}")
 
 
